@@ -237,7 +237,11 @@ where
 
         let mut data = unsafe { vec.as_mut_bytes() };
         let mut pos = 0;
-        let mut last_offset_slot = None::<&mut [u8]>;
+        // Slot of the last item emplaced so far and the offset to seal it with.
+        // The chain is kept well formed after every step (empty at first, then ending in an
+        // `L::MAX` item), so that a failing item emplacer leaves a valid vector behind.
+        let mut last = None::<(&mut [u8], usize)>;
+        L::zero().emplace(&mut *data)?;
 
         for item_emplacer in self.iter {
             if data.len() < offset_size {
@@ -250,22 +254,27 @@ where
             let item = item_emplacer.emplace(payload)?;
             let payload_size = ceil_mul(item.size(), FlexVec::<T, L>::ALIGN);
             let offset = offset_size + payload_size;
-            L::from_usize(offset)
-                .and_then(|o| if o < L::max_value() { Some(o) } else { None })
-                .ok_or(Error {
-                    kind: ErrorKind::InsufficientSize,
-                    pos,
-                })?
-                .emplace(offset_slot)?;
-            last_offset_slot = Some(offset_slot);
+            let last_offset = match &last {
+                Some((_, last_offset)) => Some(
+                    L::from_usize(*last_offset)
+                        .and_then(|o| if o < L::max_value() { Some(o) } else { None })
+                        .ok_or(Error {
+                            kind: ErrorKind::InsufficientSize,
+                            pos,
+                        })?,
+                ),
+                None => None,
+            };
+            // The item is in place: link it in as the new last one, then seal its predecessor.
+            L::max_value().emplace(offset_slot)?;
+            if let (Some((last_offset_slot, _)), Some(last_offset)) = (last.take(), last_offset) {
+                last_offset.emplace(last_offset_slot)?;
+            }
+            last = Some((offset_slot, offset));
 
             data = payload.split_at_mut(payload_size).1;
             pos += offset;
         }
-        match last_offset_slot {
-            Some(offset_slot) => L::max_value().emplace(offset_slot)?,
-            None => L::zero().emplace(data)?,
-        };
 
         Ok(vec)
     }
